@@ -368,7 +368,15 @@ theorem C15_cmp_complete_layout_texts (ch1 ch2 : List Char → Bool) (a b : List
   simp only [Bool.and_eq_true, beq_iff_eq] at la lb
   exact compareRecon_of_streams a b _ _ la.1 lb.1 la.2 lb.2 (mixed_layouts ch1 ch2 va vb h)
 
--- NONVAC1
+/-- Non-vacuity: neither text is what a printer writes for this value (they write `@a({1},2)`): `;` and a new line as
+separators, the body explicit on one side and implicit on the other, and its first item is itself a record (the
+out-of-step case). -/
+example :
+    inLayout (fun _ => false) "@a({{1};2})".toList = true ∧ inLayout (fun _ => true) "@a({1}\n2)".toList = true ∧
+    parseValue "@a({{1};2})".toList = parseValue "@a({1}\n2)".toList ∧
+    (parseValue "@a({1}\n2)".toList).isSome = true ∧
+    compareRecon "@a({{1};2})".toList "@a({1}\n2)".toList = true := by
+  decide +kernel
 
 /-- **One side printer output, the other any text in any layout**: a well-formed value printed by any of the three
 printers compares equal to every valid text of an equal value whose stream is a layout of it. -/
@@ -384,7 +392,12 @@ theorem C15_cmp_complete_printed_vs_layout (st : Style) (v : Value) (hw : v.wf =
     rw [e]; exact evsAgree_refl _
   exact compareRecon_of_streams _ b _ _ f1 lb.1 a1 lb.2 (mixed_layouts (fun _ => true) ch v vb h)
 
--- NONVAC2
+/-- Non-vacuity: a hand-written text (explicit body, `;`, blanks, a new line before the record body) in the fragment;
+the printers write `@a(1,2)` for its value. -/
+example :
+    inLayout (fun _ => false) "@a({1 ; 2})\n{ }".toList = true ∧
+    parseValue "@a({1 ; 2})\n{ }".toList = parseValue "@a(1,2)".toList ∧
+    (parseValue "@a(1,2)".toList).isSome = true := by decide +kernel
 
 /-! ## open (tied by differential testing only) -/
 
